@@ -186,9 +186,9 @@ theorem bv_take_nouts (modified liveIn liveOut definedIn : List String) :
     intro x hx
     rw [Bool.eq_iff_iff]
     have hx' := List.mem_filter.mp hx
-    simp only [Bool.or_eq_true, List.contains_iff_mem, decide_eq_true_eq] at hx'
+    simp only [Bool.or_eq_true, List.contains_iff_mem] at hx'
     simp only [List.contains_iff_mem, List.mem_filter, Bool.and_eq_true, Bool.or_eq_true, Bool.not_eq_eq_eq_not,
-      Bool.not_true, decide_eq_true_eq, decide_eq_false_iff_not]
+      Bool.not_true]
     constructor
     · exact fun h => h.2
     · exact fun h => ⟨⟨hx'.1, Or.inl h.1⟩, h⟩
